@@ -89,6 +89,23 @@ def _never_validates(fn, s):
         return True
 
 
+# one character too many: line ends, blanks, a NUL, a digit - in front or behind
+PADS = ["\n", "\r", "\r\n", " ", "\t", "\x00", "0", "\u00a0"]
+
+
+def _case_variant(nm, fn, base, exp):
+    """Letters are letters: a base spelled in lower case is either refused or gets the check digit of its upper-case
+    spelling (the public algorithms assign values to letters, not to cases)."""
+    low = base.lower()
+    if low == base:
+        return []
+    try:
+        got = fn(low)
+    except Exception:
+        return []
+    return [] if got == exp else [(f"{nm}-checkdigit-of-lower-case-spelling", f"base={low!r} library={got!r}, upper-case spelling has {exp!r}")]
+
+
 def _prefixes():
     from ofxtools.lib import NUMBERING_AGENCIES
 
@@ -120,11 +137,11 @@ def check_case(case):
             if c != exp and not _never_validates(utils.validate_cusip, base + c):
                 out.append(("cusip-corrupt-accepted", f"{base + c!r} (correct check {exp})"))
                 break
-        for n in list(range(0, 9)) + list(range(10, 15)):
-            s = (full * 2)[:n]
+        for s in [(full * 2)[:n] for n in list(range(0, 9)) + list(range(10, 15))] + [full + ch for ch in PADS] + [ch + full for ch in PADS]:
             if not _never_validates(utils.validate_cusip, s):
                 out.append(("cusip-length", f"{s!r}"))
                 break
+        out += _case_variant("cusip", utils.cusip_checksum, base, exp)
         if all(c in ALNUM for c in base):
             nation = case.get("nation")
             try:
@@ -146,6 +163,7 @@ def check_case(case):
             out.append(("sedol-checkdigit", f"base={base!r} library={got!r} reference={exp!r}"))
         full = base + exp
         nation = case.get("nation")
+        out += _case_variant("sedol", utils.sedol_checksum, base, exp)
         try:
             isin = utils.sedol2isin(full, nation) if nation else utils.sedol2isin(full)
         except Exception as e:
@@ -184,8 +202,7 @@ def check_case(case):
             if c != exp and not _never_validates(utils.validate_isin, base + c):
                 out.append(("isin-corrupt-accepted", f"{base + c!r} (correct check {exp})"))
                 break
-        for n in list(range(0, 12)) + list(range(13, 17)):
-            s = (full * 2)[:n]
+        for s in [(full * 2)[:n] for n in list(range(0, 12)) + list(range(13, 17))] + [full + ch for ch in PADS] + [ch + full for ch in PADS]:
             if not _never_validates(utils.validate_isin, s):
                 out.append(("isin-length", f"{s!r}"))
                 break
